@@ -172,9 +172,51 @@ def run(tier):
         rep.ob("O4.generation-reads-grammar-param", w.path, ok,
                "no generation call takes input derived from the grammar path parameter",
                key="O4:gen-wrong-input", file=rel, line=w.line, fn=w.path)
+    # ---------------- O6: a needed rebuild is not conditional on the other gate
+    pub_blocks = {s["block"] for s in PUB}
+    r_noforce = w.reachable([0], removed_edges=set(force))
+    r_noneeds = w.reachable([0], removed_edges=set(needs))
+    rep.ob("O6.stale-output-is-rebuilt-without-force", w.path, bool(pub_blocks & r_noforce),
+           "with force_build off the publication site is unreachable: an edited grammar is never rebuilt",
+           key="O6:rebuild-needs-force", file=rel, line=w.line, fn=w.path)
+    rep.ob("O6.forced-build-rebuilds-current-output", w.path, bool(pub_blocks & r_noneeds),
+           "a forced build does not reach the publication site when the gate reports the output as current",
+           key="O6:force-ignored", file=rel, line=w.line, fn=w.path)
+    # ---------------- O4b: the hash function digests the whole file it is given
+    if gate_info and gate_info.get("hash_fn"):
+        hb = f.body(gate_info["hash_fn"])
+        if hb is None:
+            rep.anchor_missing("hash function body")
+        else:
+            hrel = hb.relfile()
+            opens = [t for _, t in hb.calls() if callee_of(t) == "std::fs::File::open"]
+            rep.ob("O4b.hash-opens-its-argument", hb.path, len(opens) == 1 and identity_param(hb, opens[0]["args"][0]) == 1,
+                   "the hash function does not open the path it is given", key="O4b:hash-open", file=hrel, line=hb.line, fn=hb.path)
+            reads = [(bi, t) for bi, t in hb.calls() if (callee_of(t) or "").endswith("::read_to_end") or (callee_of(t) or "").endswith("::read_to_string")]
+            ups = [(bi, t) for bi, t in hb.calls() if (callee_of(t) or "").endswith("Digest>::update") or (callee_of(t) or "").endswith("::update")]
+            fins = [(bi, t) for bi, t in hb.calls() if (callee_of(t) or "").endswith("Digest>::finalize") or (callee_of(t) or "").endswith("::finalize")]
+            ok = len(reads) == 1 and len(ups) >= 1 and len(fins) == 1
+            if ok:
+                buf = core.slice_locals(hb, [reads[0][1]["args"][1]])
+                for ubi, ut in ups:
+                    data = core.slice_locals(hb, [ut["args"][1]])
+                    ok = ok and bool(buf & data) and hb.dominates(reads[0][0], ubi)
+                # nothing slices the buffer between read and update
+                sl = [callee_of(t) for _, t in hb.calls() if re_index(callee_of(t)) and core.slice_locals(hb, [t["args"][0]]) & buf]
+                ok = ok and not sl
+                # the returned string derives from finalize()
+                prov = origins(hb, 0, transparent=deep_transparent, through_agg=True, record_calls=True, facts=f)
+                ok = ok and any(d[0] == "call" and d[2] == fins[0][0] for d in prov)
+            rep.ob("O4b.hash-digests-the-whole-file", hb.path, ok,
+                   "the hash function does not feed the complete contents read from the file into the digest that it returns "
+                   "(an edit outside the hashed part would not trigger a rebuild)", key="O4b:hash-partial", file=hrel, line=hb.line, fn=hb.path)
     for o in rep.obligations[:6]:
         rep.sample(o)
     return rep
+
+
+def re_index(c):
+    return bool(c) and (c.endswith("::index") or "::get" in c.split("<")[0][-8:] or c.endswith("::split_at") or c.endswith("::truncate"))
 
 
 def analyse_gate(rep, p):
